@@ -43,7 +43,7 @@ def rec_case(draw, level="function"):
         # a record that is a whole number of segments long; preferably one whose duration does not survive the
         # samples -> seconds -> samples round trip in floating point (N*dt/dt < N)
         dt = 1.0 / fs
-        cands = [nx * q for q in range(4, 13)]
+        cands = [nx * q for q in range(4, 41)]
         frag = [n for n in cands if int((n * dt) / dt) < n]
         N = frag[0] if frag else nx * nseg
     return {"layout": lay, "nxseg": nx, "pov": pov, "method": draw(st.sampled_from(["per", "cor"])), "N": N,
